@@ -11,11 +11,18 @@
    forbidden or accepted, operator depth, in or out of a function or loop —
    the code the compiler model emits leaves the one value the semantics
    defines where its operand says, and raises the same error
-   ([C12_pure_expression_any_context]).  For statements with effects the
+   ([C12_pure_expression_any_context]).  For the statement language over
+   globals (assignments, blocks, if, if/else, while; StmtCorrect.v) the same:
+   compiled in value position or in discarded position — the two strategies
+   every construct has — the code has the one meaning [ssem] gives
+   ([C12_statement_used_or_discarded]); a condition must be boolean in both
+   ([ssem] goes through [cond_res]); if !c A else B means if c B else A
+   ([C12_negated_if_swap_compiled]).  For calls, generators and locals the
    compiled side is NOT proved (C01's open statement); the check decides it
    by metamorphic pairs on the real code. *)
 Require Import Calc.Base Calc.Bytecode Calc.Value Calc.FloatText Calc.Ast Calc.Compile Calc.VM Calc.Sem Calc.SemProofs.
-Require Import Calc.ExprSem Calc.ExprVM Calc.ExprCorrect.
+Require Import Calc.ExprSem Calc.ExprVM Calc.ExprCorrect Calc.ExprTop Calc.ExprAssign Calc.ExprLen Calc.ExprSession
+        Calc.StmtSem Calc.StmtVM Calc.StmtCorrect Calc.StmtTop.
 Open Scope Z_scope.
 
 (* x = x + 1  and  x = 1 + x  are the same computation on ints and floats *)
@@ -99,3 +106,28 @@ Theorem C12_same_operands : forall G op c e, binop_opcode op = Some c ->
   den G (NBin op e e) = match den G e with Fail err => Fail err | Ok a => apply_binop c a a end.
 Proof. intros G op c e H. cbn [den]. rewrite H. destruct (den G e); reflexivity. Qed.
 Print Assumptions C12_same_operands.
+
+(* a statement means the same whether its value is used or discarded: in both compilation modes
+   the emitted code realises ssem (the flag d is the Discard flag) *)
+Theorem C12_statement_used_or_discarded : forall t, wstmt t = true ->
+  forall d sel s w s', sel = 0 -> wfcs s -> Compile.comp t sel (tfl d) s = COk (w, s') -> SpecS t d sel s s' w.
+Proof. exact comp_stmt. Qed.
+Print Assumptions C12_statement_used_or_discarded.
+
+(* the condition of if and while must be a boolean wherever the statement stands: the meaning
+   the compiled code has goes through cond_res *)
+Theorem C12_condition_class : forall r,
+  cond_res r = match r with
+               | Fail e => Fail e
+               | Ok (VBool b) => Ok b
+               | Ok VNil => Fail ErrNil
+               | Ok _ => Fail ErrType
+               end.
+Proof. intros r. reflexivity. Qed.
+Print Assumptions C12_condition_class.
+
+Theorem C12_negated_if_swap_compiled : forall n G c a b r,
+  pure c = true ->
+  ssem (S n) G (NIfElse (NUn "!" c) a b) = Some r -> ssem (S n) G (NIfElse c b a) = Some r.
+Proof. exact negated_if_swap. Qed.
+Print Assumptions C12_negated_if_swap_compiled.
